@@ -24,7 +24,7 @@ theorem skel_handleOutChans_shape :
   "      registration := val.Interface().(outChanReg)",
   "      caseToID = append(caseToID, registration.chID)",
   "      cases = append(cases, reflect.SelectCase{ Dir: reflect.SelectRecv, Chan: registration.ch, })",
-  "      c.nextWriter(func{…})",
+  "      c.nextWriter(registration.epoch, func{…})",
   "        resp := &response{ Jsonrpc: \"2.0\", ID: registration.reqID, Result: registration.chID, }",
   "        if err := json.NewEncoder(w).Encode(resp); err != nil",
   "          return",
@@ -128,7 +128,7 @@ theorem skel_handleChanOut_shape :
   "  go c.handleOutChans()",
   "id := atomic.AddUint64(&c.chanCtr, 1)",
   "select",
-  "  case c.registerCh <- outChanReg{ reqID: req, chID: id, ch: ch, }",
+  "  case c.registerCh <- outChanReg{ reqID: req, epoch: epoch, chID: id, ch: ch, }",
   "    return nil",
   "  case <-c.exiting",
   "    return xerrors.New(\"connection closing\")"] := rfl
